@@ -54,9 +54,12 @@ def build_and_run_cpp(rep, tag, defs, entries, wd, stds=("c++17", "c++20")):
 
 
 def check_events_cpp(rep, g, entries, events, std):
-    by_f = {}
+    by_f, cb_f = {}, {}
     for ev in events:
-        by_f.setdefault(ev["f"], []).append(ev)
+        if ev["ev"].startswith("Cb"):
+            cb_f.setdefault(ev["f"].split(".")[0], []).append(ev)
+        else:
+            by_f.setdefault(ev["f"], []).append(ev)
     ncmp = 0
     for e in entries:
         sig = e["sig"]
@@ -75,6 +78,8 @@ def check_events_cpp(rep, g, entries, events, std):
         want = ["CCall", "RustEnter", "RustReturn", "CReturn"] + (["CWrite"] if sig["write"] and not no_string else [])
         if kinds != want:
             rep.violation(dict(key, what="call protocol (exactly once, in order)"), {"sig": sig, "events": evs, "expected_order": want})
+            continue
+        if not c01.check_callbacks(rep, g, e, key, evs, cb_f.get("f%d" % e["n"], [])):
             continue
         slots = []
         if sig["self"]["k"] in ("opq", "opqmut"):
@@ -157,7 +162,7 @@ def run(rep, tier):
                 "compiled with g++ -std=c++17 (bundled span) and -std=c++20 (std::span) under ASan/UBSan; plus every direct &str "
                 "parameter with invalid UTF-8, which must be refused before reaching Rust; non-trivial = distinct (standard, signature, "
                 "values)")
-    rep.assumptions += ["x86-64, g++ 12", "callbacks (std::function) and namespaced/renamed types are exercised by the feature_tests leg only"]
+    rep.assumptions += ["x86-64, g++ 12", "namespaced/renamed types are exercised by the feature_tests leg only"]
     m = lib.tlc("abi", "CallProtocol", "call.cfg", workers=4)
     lib.tlc_expect_ok(m, "CallProtocol")
     rep.add_tlc("CallProtocol", m)
